@@ -44,8 +44,9 @@ def main(argv=None):
         prog = Program.from_repo(a.src)
         rep.analysed['modules_parsed'] = sorted(prog.modules)
         mod.run(prog, rep, tier)
-        if tier == 'thorough' and hasattr(mod, 'selftest'):
-            mod.selftest(prog, rep)
+        if tier == 'thorough':
+            from .selftest import selftest
+            selftest(pid, rep, a.src)
     except AnalysisError as e:
         rep.error('analysis broken: %s' % e)
     except RecursionError as e:
